@@ -21,7 +21,7 @@
    Gen_MemPoolConst.CorrectBlockSize (MemPool.h:43-49), regenerated from /repo on every run. *)
 From Coq Require Import ZArith List Bool Arith Lia.
 From MomoCommon Require Import GenPrelude.
-From C20 Require Gen_UIntMath Gen_MemPoolConst.
+From C20 Require Gen_UIntMath Gen_MemPoolConst Gen_MemPool.
 Import ListNotations.
 Local Open Scope Z_scope.
 
@@ -29,13 +29,13 @@ Local Open Scope Z_scope.
 Record vtype := mkVt { vsize : Z; valign : Z }.
 Definition vt_eqb (a b : vtype) : bool := (vsize a =? vsize b) && (valign a =? valign b).
 
-(* MemPoolParams<>: (blockSize, blockAlignment); blockCount = MOMO_DEFAULT_MEM_POOL_BLOCK_COUNT = 32 *)
+(* MemPoolParams<blockCount, cachedFreeBlockCount>: run-time part (blockSize, blockAlignment) *)
 Definition params := (Z * Z)%type.
-Definition default_block_count : Z := 32.
 
-(* pvGetMemPoolParams (169-173) -> MemPoolParams(blockSize, blockAlignment) (MemPool.h:78-83) *)
-Definition get_params (vt : vtype) : params :=
-  (Gen_MemPoolConst.CorrectBlockSize (vsize vt) (valign vt) default_block_count, valign vt).
+(* the compile-time part of TMemPoolParams: the model and every theorem are for ALL values; the harness runs
+   <32,16> (default), <4,0> (no cache), <1,2> (one block per buffer) and <127,1> *)
+Record pcfg := mkCfg { block_count : Z; cached_free_block_count : Z }.
+Definition cfg_default : pcfg := mkCfg 32 16.
 
 (* pvIsEqual (175-180) *)
 Definition params_eqb (p q : params) : bool := (fst p =? fst q) && (snd p =? snd q).
@@ -138,9 +138,16 @@ Definition acquire (st : state) (p : nat) : state :=
   let P := pools st p in
   set_pool st p (mkPool (pparams P) (pcount P) (S (prefs P)) (pheld P) (palive P)).
 
-(* MemPoolParams<>::cachedFreeBlockCount = MOMO_DEFAULT_MEM_POOL_CACHED_FREE_BLOCK_COUNT; pvUseCache (MemPool.h:455-458) *)
-Definition cached_free_block_count : nat := 16.
-Definition use_cache (P : pool) : bool := (8 <=? fst (pparams P))%Z.
+Section Cfg.
+Variable cfg : pcfg.
+
+(* pvGetMemPoolParams (169-173) -> MemPoolParams(blockSize, blockAlignment) (MemPool.h:78-83): GENERATED CorrectBlockSize *)
+Definition get_params (vt : vtype) : params :=
+  (Gen_MemPoolConst.CorrectBlockSize (vsize vt) (valign vt) (block_count cfg), valign vt).
+
+(* pvUseCache (MemPool.h:455-458): the GENERATED function, on the pool's current parameters *)
+Definition use_cache (P : pool) : bool :=
+  Gen_MemPool.pvUseCache (cached_free_block_count cfg) (fst (pparams P)) (snd (pparams P)).
 (* MemPool::Allocate (281-303) takes a parked block, without touching the base allocator, when the cache is not empty *)
 Definition from_cache (st : state) (p : nat) : bool := use_cache (pools st p) && negb (Nat.eqb (cached st p) 0).
 
@@ -228,7 +235,7 @@ Definition step (st : state) (o : op) : outcome (state * obs) :=
         | S c =>
             (* MemPool.h:305-323: with a cache the block is parked; a full cache (16) is flushed first; only a
                flush, or the cache-less path, hands blocks back to buffers and may release a buffer *)
-            let flush := Nat.leb cached_free_block_count (cached st p) in
+            let flush := Z.leb (cached_free_block_count cfg) (Z.of_nat (cached st p)) in
             let fr := if use_cache P && negb flush then O else Nat.min shrink (pheld P) in
             let k := if use_cache P then S (if flush then O else cached st p) else cached st p in
             let P' := mkPool (pparams P) c (prefs P) (pheld P - fr) (palive P) in
@@ -366,3 +373,5 @@ Definition outstanding (st : state) : nat :=
    Alloc tmp(std::move(a)); a = std::move(b); b = std::move(tmp); ~tmp *)
 Definition swap_ops (st : state) (h1 h2 : nat) : list op :=
   [OpMove h1; OpAssign h1 h2; OpAssign h2 (nhandles st); OpDestroy (nhandles st)].
+
+End Cfg.
